@@ -40,6 +40,7 @@ fn streams() -> Vec<(&'static str, GenFn, EvalFn)> {
         ("sizes", s_sqlx::gen_sizes, s_sqlx::eval_sizes),
         ("c08x", s_sqlx::gen_c08x, s_sqlx::eval),
         ("quote", s_quote::gen, s_quote::eval),
+        ("values", s_sqlx::gen_values, s_sqlx::eval_values),
         ("c09", s_exec::gen_c09, s_exec::eval_c09),
         ("c01", s_exec::gen_c01, s_exec::eval_c01),
         ("clip", s_exec::gen_clip, s_exec::eval_clip),
